@@ -11,6 +11,7 @@ import (
 	"io"
 	"math/rand"
 	"net/http"
+	"net/url"
 	"sort"
 	"strings"
 	"sync/atomic"
@@ -77,6 +78,10 @@ type ReqSpec struct {
 	Query  string              `json:"query,omitempty"`
 	Header map[string][]string `json:"header,omitempty"`
 	Body   []byte              `json:"body,omitempty"`
+	// Escaped: Path is the escaped spelling of the path as a client wrote it
+	// (the request then carries URL.Path and URL.RawPath like net/http's
+	// server sets them)
+	Escaped bool `json:"escaped,omitempty"`
 }
 
 // Case is a replayable mount case.
@@ -110,6 +115,11 @@ func requests(std *svc.Std) []ReqSpec {
 	add(ReqSpec{Kind: "http", Verb: "GET", Path: "/v1/items/it/42"})
 	add(ReqSpec{Kind: "http", Verb: "GET", Path: "/v1/items/it/notanumber"})
 	add(ReqSpec{Kind: "http", Verb: "PATCH", Path: "/v1/sub/k", Header: jh, Body: []byte(`{"a":"x","l":"7"}`)})
+	add(ReqSpec{Kind: "http", Verb: "GET", Path: "/v1/unary/a%40b", Query: "n=5&sub.a=q", Escaped: true})
+	add(ReqSpec{Kind: "http", Verb: "GET", Path: "/v1/unary/%41bc", Query: "n=3", Escaped: true})
+	add(ReqSpec{Kind: "http", Verb: "GET", Path: "/v1/echo/x%2Fy", Query: "n=1", Escaped: true})
+	add(ReqSpec{Kind: "http", Verb: "GET", Path: "/v1/echo/caf%C3%A9", Query: "n=2", Escaped: true})
+	add(ReqSpec{Kind: "http", Verb: "PATCH", Path: "/v1/sub/k%21", Query: "x=1", Header: jh, Body: []byte(`{"a":"x","l":"7"}`), Escaped: true})
 	add(ReqSpec{Kind: "http", Verb: "DELETE", Path: "/v1/echo"})
 	add(ReqSpec{Kind: "http", Verb: "GET", Path: "/v1/nothing/here"})
 	add(ReqSpec{Kind: "http", Verb: "GET", Path: "/v1"})
@@ -146,10 +156,18 @@ func (q ReqSpec) build(urlPath string) *http.Request {
 	case "webtext":
 		return wire.WebRequest(urlPath, hdr, q.Body, true, "")
 	}
+	var req *http.Request
 	if q.Body == nil {
-		return wire.BodyRequest(q.Verb, urlPath, q.Query, hdr, nil)
+		req = wire.BodyRequest(q.Verb, urlPath, q.Query, hdr, nil)
+	} else {
+		req = wire.BodyRequest(q.Verb, urlPath, q.Query, hdr, q.Body)
 	}
-	return wire.BodyRequest(q.Verb, urlPath, q.Query, hdr, q.Body)
+	if q.Escaped {
+		if u, err := url.ParseRequestURI(urlPath); err == nil {
+			req.URL.Path, req.URL.RawPath = u.Path, u.RawPath
+		}
+	}
+	return req
 }
 
 type view struct {
